@@ -36,7 +36,8 @@ def run(ctx):
     ctx.rule("R-CHK", "every success path passes the required step")
     K.check_attr_values_unescaped(ctx, f)
     K.check_scheme_tests_ignore_case(ctx, f)
-    K.check_text_impls_escape(ctx, f)
+    from props import C09
+    C09.check_text_impls_escape(ctx, f)
 
     # ---- C11.a name tables --------------------------------------------------------------
     for mod in MODS:
@@ -214,28 +215,44 @@ def run(ctx):
         ctx.missing("R-CLS", "Handle::verify_name", vn)
     else:
         ctx.saw_fn(vn)
-        cl = vn + "::{closure#0}"
-        cls, pr = absint.byte_class(f, cl, arg_index=1)
+        # the predicate every byte of the name has to satisfy: whatever is handed to `all` (or, negated, to `any`) over
+        # the bytes of the argument — a closure or a named function
+        preds = _byte_predicates(f, vb)
         want = set(b"-_/0123456789ABCDEFGHIJKLMNOPQRSTUVWXYZabcdefghijklmnopqrstuvwxyz")
         if ctx.cfg == "C":
             want = want | {0x5c}
+        cls, pr = None, []
+        for quant, pname, ai in preds:
+            c1, p1 = absint.byte_class(f, pname, arg_index=ai)
+            pr += list(p1 or [])
+            if c1 is None:
+                cls = None
+                break
+            if quant == "any":                    # `!bytes.any(bad)`: allowed = the bytes `bad` is false for
+                c1 = set(range(256)) - c1
+            cls = c1 if cls is None else (cls & c1)
+        if not preds:
+            pr = ["no all/any over the bytes of the name found in " + vn]
         ctx.ob("R-CLS", "Handle::verify_name:class[%s]" % ctx.cfg, cls == want and not pr,
                "handle bytes are exactly [-_A-Za-z0-9/]%s" % (" plus backslash (compat)" if ctx.cfg == "C" else ""), where=vb.loc,
                detail={"extracted": absint.fmt_class(cls), "problems": pr})
-        names = {"len(s)": "n"}
+        pn = vb.local_name(1) or "_1"
+        names = {"len(%s)" % pn: "n"}
         paths, it, err = K.run_absint(f, vn, sym_names=names)
         if paths is None:
             ctx.ob("R-REG", "Handle::verify_name:analysable", False, "cannot establish: " + str(err), where=vb.loc)
         else:
-            allsym = [s for p in paths for s in p.zone.syms if s.startswith("Bytes::all(")]
+            allsym = [s for p in paths for s in p.zone.syms if re.match(r"^[\w:]+::(all|any)\(", s)]
             a = allsym[0] if allsym else "all"
+            # value of the combinator when every byte is allowed
+            good = 0 if re.match(r"^[\w:]+::any\(", a) else 1
             okk = lambda p: outcome_str(p.outcome) == "return Ok(())"
             errk = lambda p: outcome_str(p.outcome).startswith("return Err(")
             K.check_regions(ctx, "R-REG", "Handle::verify_name", paths, it, [
-                ("all bytes ok, 1≤len≤255", RC(a, 1, 1) + RC("n", 1, 255), okk, "Ok"),
-                ("empty", RC(a, 1, 1) + RC("n", 0, 0), errk, "Err"),
-                ("len≥256", RC(a, 1, 1) + RC("n", 256, None), errk, "Err"),
-                ("some byte not allowed", RC(a, 0, 0), errk, "Err"),
+                ("all bytes ok, 1≤len≤255", RC(a, good, good) + RC("n", 1, 255), okk, "Ok"),
+                ("empty", RC(a, good, good) + RC("n", 0, 0), errk, "Err"),
+                ("len≥256", RC(a, good, good) + RC("n", 256, None), errk, "Err"),
+                ("some byte not allowed", RC(a, 1 - good, 1 - good), errk, "Err"),
             ], vb.loc)
         fs = f.find_bodies(r"^<ca::idexchange::Handle<T> as std::str::FromStr>::from_str$")
         if fs:
@@ -251,6 +268,30 @@ def run(ctx):
             htys.add((root_fn(f, c.body.name), c.name))
     ctx.ob("R-WHO", "Handle:never-written-as-text", not htys,
            "handles (whose unchecked Handle::new admits any string) are only written as escaped attribute values", detail=sorted(htys))
+
+
+def _byte_predicates(f, b):
+    """[(quantifier, body name, index of the byte argument)] — the predicates applied to every byte of the first
+    parameter of b by `Iterator::all` / `Iterator::any`: closures or named functions."""
+    pn = re.escape(b.local_name(1) or "_1")
+    out = []
+    for c in b.calls():
+        if c.name not in ("all", "any") or c.trait != "std::iter::Iterator" or len(c.args) != 2 or b.is_cleanup(c.bb):
+            continue
+        a = K.arg_terms(c)
+        recv = strip_deep(a[0])
+        while recv[0] == "mvar":
+            recv = strip_deep(recv[3])
+        if not re.match(r"^(?:str::bytes\(%s\)|%s)$" % (pn, pn), render(recv)):
+            continue
+        pt = strip(a[1])
+        if pt[0] == "closure":
+            out.append((c.name, pt[1], 1))
+        elif pt[0] == "fnref":
+            out.append((c.name, pt[1], 0))
+        else:
+            out.append((c.name, "?" + render(pt), 0))
+    return out
 
 
 def _const_local(f, cname):
